@@ -959,7 +959,61 @@ fn search_c12(r: &mut Rng, iters: usize) -> bool {
                 if !fine { witness("verify_checksum", &[("file", rel.clone()), ("hexcontent", hex(&content)), ("algo", DIGESTS[k].into()), ("corrupt", corrupt.to_string())], "Ok iff recorded == digest", &format!("{:?}", rr)); ok = false; break 'outer; }
             }
             if res.len() != 6 { witness("verify_checksum", &[("file", rel.clone()), ("hexcontent", hex(&content)), ("algo", "all".into()), ("corrupt", corrupt.to_string())], "6 results", &res.len().to_string()); ok = false; break 'outer; }
+            // the same object, other paths with the same final component: recorded under another sub-directory or not at all
+            if !sub {
+                let other = dir.join("elsewhere").join(fname);
+                let _ = std::fs::create_dir_all(dir.join("elsewhere"));
+                let _ = std::fs::write(&other, b"different content");
+                let first = di.find_entry(&path).map(|e| e.filename.clone()).ok();
+                let second = di.find_entry(&other).map(|e| e.filename.clone()).ok();
+                let again = di.find_entry(&path).map(|e| e.filename.clone()).ok();
+                // `elsewhere/NAME` is not recorded; its shortest recorded trailing sub-path is NAME itself (recorded), so both give NAME
+                if first != again || second != first {
+                    witness("find_entry_sequence", &[("file", rel.clone())], &format!("{:?}", first), &format!("{:?} then {:?}", second, again)); ok = false; break 'outer;
+                }
+                let unrec = dir.join("elsewhere").join("never-recorded.bin");
+                if di.find_entry(&unrec).is_ok() || !matches!(di.verify_size(&unrec), Err(DistinfoError::NotFound)) {
+                    witness("find_entry_sequence", &[("file", "elsewhere/never-recorded.bin".into())], "NotFound", "found"); ok = false; break 'outer;
+                }
+            } else {
+                // proj/NAME and NAME are both recorded; a lookup of other/NAME (not recorded as such) must give NAME, before and after looking up proj/NAME
+                let other = dir.join("other").join(fname);
+                let a1 = di.find_entry(&other).map(|e| e.filename.clone()).ok();
+                let _ = di.find_entry(&path);
+                let a2 = di.find_entry(&other).map(|e| e.filename.clone()).ok();
+                if a1 != a2 {
+                    witness("find_entry_sequence", &[("file", rel.clone())], &format!("{:?}", a1), &format!("{:?}", a2)); ok = false; break 'outer;
+                }
+            }
             if !matches!(di.verify_size(dir.join("nope/zzz")), Err(DistinfoError::NotFound)) { witness("verify_size", &[("file", "nope/zzz".into()), ("hexcontent", "".into()), ("recorded", "".into())], "NotFound", "other"); ok = false; break 'outer; }
+        }
+    }
+    if ok {
+        // the same file name recorded under two sub-directories, and a third directory that is not recorded: each lookup is decided
+        // by its own path, whatever was looked up before on the same object
+        let mut di = Distinfo::new();
+        for sub in ["one", "two"] {
+            let rel = format!("{}/data.bin", sub);
+            let _ = std::fs::create_dir_all(dir.join(sub));
+            let content = format!("content of {}", sub);
+            std::fs::write(dir.join(&rel), &content).unwrap();
+            di.insert(Entry::new(&rel, &rel, vec![Checksum::new(Digest::SHA1, Digest::SHA1.hash_str(&content).unwrap())], Some(content.len() as u64)));
+        }
+        let _ = std::fs::create_dir_all(dir.join("three"));
+        std::fs::write(dir.join("three/data.bin"), b"x").unwrap();
+        let name_of = |p: &std::path::Path| di.find_entry(p).map(|e| e.filename.to_string_lossy().into_owned()).unwrap_or_else(|_| "NotFound".into());
+        let seq = [("one/data.bin", "one/data.bin"), ("two/data.bin", "two/data.bin"), ("three/data.bin", "NotFound"), ("one/data.bin", "one/data.bin"), ("three/data.bin", "NotFound")];
+        for (look, want) in seq {
+            let got = name_of(&dir.join(look));
+            let sz = di.verify_size(dir.join(look));
+            let sz_ok = if want == "NotFound" { matches!(sz, Err(DistinfoError::NotFound)) } else { sz.is_ok() };
+            let ck = di.verify_checksum(dir.join(look), Digest::SHA1);
+            let ck_ok = if want == "NotFound" { matches!(ck, Err(DistinfoError::NotFound)) } else { ck.is_ok() };
+            if got != want || !sz_ok || !ck_ok {
+                witness("find_entry_sequence", &[("file", look.to_string())], want, &format!("{} size_ok={} checksum_ok={}", got, sz_ok, ck_ok));
+                ok = false;
+                break;
+            }
         }
     }
     let _ = std::fs::remove_dir_all(&dir);
@@ -1046,6 +1100,7 @@ fn run_witness(args: &[String]) -> i32 {
         "pkgpath" => more::real_pkgpath(&g("path")),
         "depend" => more::real_depend(&g("depend")),
         "meta_table" => more::real_meta_table(),
+        "meta_valid_consistency" => more::valid_consistency(g("mask").parse().unwrap_or(0)),
         "meta_is_valid" => more::real_is_valid(g("mask").parse().unwrap_or(0)).to_string(),
         "pkgdb_tree" => {
             let root = std::env::temp_dir().join(format!("verif-replay-w-{}", std::process::id()));
@@ -1058,6 +1113,7 @@ fn run_witness(args: &[String]) -> i32 {
         }
         "scanindex" => format!("{:?}", more::scan_real(&unhexb(&g("hextext")), g("failat").parse().ok())),
         "no_panic" => more::replay_no_panic(&g("entry"), &unhexb(&g("hexinput"))),
+        "find_entry_sequence" => "sequence-dependent (re-run the search to reproduce)".into(),
         "order_law" => {
             // re-evaluate the law on the real code
             let mut r = Rng::new(1);
